@@ -199,6 +199,9 @@ type KnownEntry struct {
 	Replay      string `json:"replay"`
 	Description string `json:"description"`
 	Status      string `json:"status"` // "open" or "fixed"
+	// Exclude lists generator triggers (adversary strategies / input classes) that the search for this property
+	// leaves out by construction while the finding is open, so that any violation it reports is a different one.
+	Exclude []string `json:"exclude,omitempty"`
 }
 
 type knownFile struct {
@@ -209,10 +212,21 @@ type knownFile struct {
 var (
 	knownOnce sync.Once
 	known     map[string]bool
+	excluded  map[string]map[string]bool
 )
+
+// ExcludedTriggers returns the generator triggers excluded for a property because of open known findings.
+func ExcludedTriggers(property string) map[string]bool {
+	knownOnce.Do(loadKnown)
+	if os.Getenv("VERIF_IGNORE_KNOWN") != "" {
+		return map[string]bool{}
+	}
+	return excluded[property]
+}
 
 func loadKnown() {
 	known = map[string]bool{}
+	excluded = map[string]map[string]bool{}
 	p := os.Getenv("VERIF_KNOWN")
 	if p == "" {
 		return
@@ -228,6 +242,12 @@ func loadKnown() {
 	for _, e := range kf.Findings {
 		if e.Status == "" || e.Status == "open" {
 			known[e.Property+"|"+e.Key] = true
+			for _, x := range e.Exclude {
+				if excluded[e.Property] == nil {
+					excluded[e.Property] = map[string]bool{}
+				}
+				excluded[e.Property][x] = true
+			}
 		}
 	}
 }
